@@ -93,7 +93,16 @@ def history_case(args) -> dict:
                 p = rng.choice(live)
                 lang = p.rsplit(".", 1)[1] if "." in p.rsplit("/", 1)[-1] else ""
                 dup = rng.choice([None, 0, 1])
-                if lang == "":
+                if lang in ("py", "ts", "rs") and rng.random() < 0.35:
+                    # same code, suppression comments toggled on every line: what is reported for this file (by per-file and by
+                    # cross-file rules) must follow the text that is on disk now
+                    old = (proj / p).read_text()
+                    mark = ("  # " if lang == "py" else "  // ") + "thailint: ignore"
+                    if "thailint: ignore" in old:
+                        text = old.replace("  # thailint: ignore", "").replace("  // thailint: ignore", "")
+                    else:
+                        text = "\n".join(ln + mark if ln.strip() and not ln.strip().startswith(("#", "//")) else ln for ln in old.split("\n"))
+                elif lang == "":
                     old = (proj / p).read_text()
                     text = (old.split("\n")[0] + "\n" + py_file(rng, 900 + nextver, dup)) if old.startswith("#!") else old + f"line {nextver}\n"
                 elif lang == "py":
